@@ -243,6 +243,6 @@ def _first_json_diff(a, b, path=""):
 
 CLAUSES = [
     Clause("roundtrip", check, gen=lambda t: cases(t),
-           budget={"quick": (16, 60), "thorough": (16, 3000)},
+           budget={"quick": (16, 80), "thorough": (16, 3000)},
            doc="abstract repr + legacy codec: schema, round trip, parametrized builds"),
 ]
